@@ -154,10 +154,11 @@ CLAIMS = {
                 'time step), equality of the traces on the heap and the SortedDict backend '
                 '(times by solver), identical traces of repeated real executions under heap '
                 'perturbation in the concrete validation run, and a second exploration under '
-                'python -O whose paths (identified by their free decisions) must carry identical '
+                'python -O with another PYTHONHASHSEED whose paths (identified by their free decisions) must carry identical '
                 'symbolic traces; float_absorb repeats the backend differential on IEEE doubles, '
                 'where a positive delay can be absorbed by the date.',
-        'note': _NOTE + '; hash-seed effects on str hashing are outside the claim; IEEE doubles '
+        'note': _NOTE + '; the string-hash seed is varied only between the two explorations of the '
+                        'post-check families (two seeds); IEEE doubles '
                         'only in family float_absorb',
     },
     'C19': {
